@@ -2,7 +2,7 @@
 structurally guarded on every path, else None.  Lemmas about the crate's own helper functions are re-validated on
 every run (Lemmas class); a guard that relies on a failed lemma does not discharge."""
 import re
-from absint import Interp, ADT, SYM, C, UNK, fmt, Budget, is_adt, Fork
+from absint import Interp, ADT, SYM, C, UNK, fmt, Budget, is_adt, Fork, has_subterm
 from mirlib import (short, path_endswith, callee_matches, op_place, op_const, const_value, is_local, resolve_place,
                     same_place, place_key, def_roots, bool_switch, call_result_bool_edges, switch_on_discriminant,
                     question_mark, continue_payload_local, mut_borrow_blocks, between, defs_reaching_use, def_rv, DSP)
@@ -220,10 +220,12 @@ class Lemmas:
             if is_adt(ret, 'result::Result', 'Ok'):
                 n_ok += 1
                 br = [e for e in eff if e[0] == '<branch>']
-                good = any(e[2][0] in (('app', 'binop:Eq', (SYM('actual'), SYM('expected'))), ('app', 'binop:Eq', (SYM('expected'), SYM('actual')))) and e[2][1] in (SYM('otherwise'), C(1)) for e in br)
+                pair = ((SYM('actual'), SYM('expected')), (SYM('expected'), SYM('actual')))
+                good = any((e[2][0] in [('app', 'binop:Eq', x_) for x_ in pair] and e[2][1] in (SYM('otherwise'), C(1)))
+                           or (e[2][0] in [('app', 'binop:Ne', x_) for x_ in pair] and e[2][1] == C(0)) for e in br)
                 if not good:
                     return False, 'an Ok path of expect_operator_argument_amount is not guarded by actual == expected'
-        return n_ok > 0, 'expect_operator_argument_amount returns Ok only on the true edge of actual == expected (%d Ok path)' % n_ok
+        return n_ok > 0, 'expect_operator_argument_amount returns Ok only on the true edge of actual == expected / the false edge of actual != expected (%d Ok path)' % n_ok
 
     def _tuple_lemma(self, fname, cond):
         f = self.prog.fn('value::Value::<NumericTypes>::' + fname)
@@ -273,10 +275,18 @@ class Lemmas:
                 continue
             fields = [SYM('f') for _ in v['fields']]
             n = ADT(node['path'], 0, 'Node', [ADT(op['path'], v['idx'], v['name'], fields), SYM('children')])
+            def len_eq_k(t):
+                # `children.len() == k` with a constant k >= 1 (either operand order)
+                if t[0] == 'app' and t[1] == 'binop:Eq':
+                    for x, y in (t[2], t[2][::-1]):
+                        if x[0] == 'app' and x[1].endswith('::len') and has_subterm(x, SYM('children')) and y[0] == 'c' and isinstance(y[1], int) and not isinstance(y[1], bool) and y[1] >= 1:
+                            return True
+                return False
+
             for ret, _eff in self._ok_paths(f, [n]):
-                if ret == C(False):
+                if ret in (C(False), C(0)):
                     continue
-                good = False
+                good = len_eq_k(ret) or any(e[0] == '<branch>' and len_eq_k(e[2][0]) and e[2][1] in (SYM('otherwise'), C(1)) for e in _eff)
                 if ret[0] == 'app' and ret[1].endswith('PartialEq>::eq') or (ret[0] == 'app' and 'PartialEq' in ret[1] and ret[1].endswith('::eq')):
                     a, b = ret[2]
                     for x, y in ((a, b), (b, a)):
@@ -285,7 +295,7 @@ class Lemmas:
                             good = True
                 if not good:
                     return False, 'has_enough_children(%s) = %s does not imply a non-empty child list' % (v['name'], fmt(ret))
-        return True, 'for every non-leaf operator kind, has_enough_children is `Some(children.len()) == Some(k)` with k >= 1 (or false)'
+        return True, 'for every non-leaf operator kind, has_enough_children is `Some(children.len()) == Some(k)` / holds only under `children.len() == k`, with k >= 1 (or is false)'
 
     def lemma_float_inf(self):
         """<f64 as EvalexprFloat>::MAX/MIN are +-infinity and is_infinite forwards to f64::is_infinite"""
